@@ -177,6 +177,60 @@ def generate(enums, kinds, bulk_kinds=()):
         lemmas.append(sub('lemma_@P@run_shape'))
         canaries.append(cfg['ev'] + '::eval')
         extra_prelude.append(cfg['prelude'](bases))
+    def rel_block(pc, oc, R, title, reldef, who, frm, scale):
+        Q = oc['p']
+        has_ch = bool(oc['CH'])
+        arms = []
+        for v, fs in enums['RegOp']:
+            b, form = split_variant(v)
+            if v == 'Output':
+                arms.append('        RegOp::Output(r, q) => { assert(%s(p.slots[r as int], i.slots[r as int])); lemma_%s_out(p, i, q as int, p.slots[r as int], i.slots[r as int]); }' % (R, R))
+            elif v == 'Input':
+                arms.append('        RegOp::Input(o, q) => { assert(%s(pin[q as int], iin[q as int])); lemma_%s_set(p, i, o as int, pin[q as int], iin[q as int]); }' % (R, R))
+            elif v == 'CopyImm':
+                arms.append('        RegOp::CopyImm(o, c) => { lemma_%s_set(p, i, o as int, c, %s(c)); }' % (R, frm))
+            elif v == 'Load':
+                arms.append('        RegOp::Load(r, m) => { assert(%s(p.slots[m as int], i.slots[m as int])); lemma_%s_set(p, i, r as int, p.slots[m as int], i.slots[m as int]); }' % (R, R))
+            elif v == 'Store':
+                arms.append('        RegOp::Store(r, m) => { assert(%s(p.slots[r as int], i.slots[r as int])); lemma_%s_set(p, i, m as int, p.slots[r as int], i.slots[r as int]); }' % (R, R))
+            else:
+                k = bases.index(b)
+                pre = 'assert(%s(p.slots[a as int], i.slots[a as int]));' % R
+                if form == 'Reg':
+                    if b == 'Copy':
+                        arms.append('        RegOp::%s(o, a) => { %s lemma_%s_set(p, i, o as int, p.slots[a as int], i.slots[a as int]); }' % (v, pre, R))
+                    else:
+                        arms.append('        RegOp::%s(o, a) => { %s lemma_%s_set(p, i, o as int, p_un(%d, p.slots[a as int]), %sun(%d, i.slots[a as int])); }' % (v, pre, R, k, Q, k))
+                    continue
+                if form == 'RegImm':
+                    pat, x, y, X, Y = '(o, a, imm)', 'p.slots[a as int]', 'imm', 'i.slots[a as int]', '%s(imm)' % frm
+                elif form == 'ImmReg':
+                    pat, x, y, X, Y = '(o, a, imm)', 'imm', 'p.slots[a as int]', '%s(imm)' % frm, 'i.slots[a as int]'
+                else:
+                    pat, x, y, X, Y = '(o, a, b)', 'p.slots[a as int]', 'p.slots[b as int]', 'i.slots[a as int]', 'i.slots[b as int]'
+                    pre += ' assert(%s(p.slots[b as int], i.slots[b as int]));' % R
+                if v in oc.get('VARIANT', {}):
+                    arms.append('        RegOp::%s%s => { %s lemma_%s_set(p, i, o as int, p_bin(%d, %s, %s), %s(i.slots[a as int], imm)); }' % (v, pat, pre, R, k, x, y, scale))
+                elif b in pc['CH']:
+                    c2 = '%sch(%d, %s, %s)' % (Q, k, X, Y) if has_ch else 'Choice::Unknown'
+                    arms.append('        RegOp::%s%s => { %s lemma_%s_rec(p, i, o as int, p_bin(%d, %s, %s), %sbin(%d, %s, %s), p_ch(%d, %s, %s), %s); }' % (v, pat, pre, R, k, x, y, Q, k, X, Y, k, x, y, c2))
+                else:
+                    arms.append('        RegOp::%s%s => { %s lemma_%s_set(p, i, o as int, p_bin(%d, %s, %s), %sbin(%d, %s, %s)); }' % (v, pat, pre, R, k, x, y, Q, k, X, Y))
+        rec2 = '%srec(i, o, w, c2)' % Q if has_ch else '%sset(i, o, w)' % Q
+        t = REL_TEMPLATE
+        for old_, new_ in (('@TITLE@', title), ('@RELDEF@', reldef), ('@WHO@', who), ('@REC2@', rec2), ('@R@', R), ('@T@', oc['T']), ('@Q@', Q), ('@FROM@', frm), ('@SCALE@', scale), ('/*@ARMS@*/', '\n'.join(arms))):
+            t = t.replace(old_, new_)
+        return t, ['lemma_%s_set' % R, 'lemma_%s_rec' % R, 'lemma_%s_out' % R, 'lemma_%s_step' % R, 'lemma_%s_run' % R]
+    pcs = [c for c in kinds if c['T'] == 'f32']
+    ics = [c for c in kinds if c['T'] == 'Interval']
+    gcs = [c for c in bulk_kinds if c['T'] == 'Grad']
+    if pcs and ics:
+        t, ls = rel_block(pcs[0], ics[0], 'enc', 'C03: enclosure',
+                          '/// "x is covered by the interval a" - abstract: the lemmas below hold for every relation that the operations respect\npub uninterp spec fn enc(x: f32, a: Interval) -> bool;',
+                          'for the real code: unit `interval`, the Kani enclosure harnesses and the bounded contract interp_interval; the known findings K1/K4 are operations and operands where it does NOT hold',
+                          'iv_from', 'iv_scale')
+        A(t)
+        lemmas += ls
     if bulk_kinds:
         A(BULK_SHARED)
         ds = ['pub open spec fn dst_slot(op: RegOp) -> int {\n    match op {']
@@ -216,6 +270,13 @@ def generate(enums, kinds, bulk_kinds=()):
         lemmas += [sub('lemma_@P@step_indep'), sub('lemma_@P@bulk_arm')]
         canaries.append(q)
         attrs.append((q, '#[verifier::loop_isolation(false)]'))
+    if pcs and gcs:
+        t, ls = rel_block(pcs[0], gcs[0], 'gval', 'C05: the value lane of gradient evaluation is point evaluation',
+                          '/// the value lane of g is x\npub open spec fn gval(x: f32, g: Grad) -> bool { g.v == x }',
+                          'for the real code: the value-lane clause of every contract of unit `grad`',
+                          'gd_from', 'gd_scale')
+        A(t)
+        lemmas += ls
     prelude = PRELUDE0.replace('/*@F32SPECS@*/', f32specs) + '\n' + '\n'.join(extra_prelude) + '\n' + '\n'.join(L) + (BULK_ENV if bulk_kinds else '')
     return {'specs': specs, 'proofs': proofs, 'loops': loops, 'prelude': prelude, 'exec_fns': exec_fns, 'lemmas': lemmas, 'canaries': canaries, 'attrs': attrs}
 
@@ -564,6 +625,67 @@ def make_interval(sigs):
             'envproof': 'ax_into_iv();',
             'envinv': 'forall|a: Interval| #[trigger] into_iv::<Interval>(a) == a, forall|x: f32| #[trigger] into_iv::<f32>(x) == iv_from(x),'}
 
+
+REL_TEMPLATE = r"""
+// =================== composition (@TITLE@): a relation the operations respect lifts to whole tapes ===================
+@RELDEF@
+/// every operation respects the relation (@WHO@)
+pub open spec fn @R@_ops() -> bool {
+    &&& forall|k: int, x: f32, a: @T@| #![trigger p_un(k, x), @Q@un(k, a)] @R@(x, a) ==> @R@(p_un(k, x), @Q@un(k, a))
+    &&& forall|k: int, x: f32, y: f32, a: @T@, b: @T@| #![trigger p_bin(k, x, y), @Q@bin(k, a, b)] @R@(x, a) && @R@(y, b) ==> @R@(p_bin(k, x, y), @Q@bin(k, a, b))
+    &&& forall|c: f32| @R@(c, #[trigger] @FROM@(c))
+    &&& forall|x: f32, a: @T@, c: f32| #![trigger x.mul_spec(c), @SCALE@(a, c)] @R@(x, a) ==> @R@(x.mul_spec(c), @SCALE@(a, c))
+}
+pub open spec fn @R@_seq(p: Seq<f32>, i: Seq<@T@>) -> bool { p.len() == i.len() && forall|r: int| 0 <= r < p.len() ==> @R@(#[trigger] p[r], i[r]) }
+pub open spec fn @R@_st(p: p_St, i: @Q@St) -> bool { @R@_seq(p.slots, i.slots) && @R@_seq(p.outs, i.outs) }
+pub proof fn lemma_@R@_set(p: p_St, i: @Q@St, o: int, v: f32, w: @T@)
+    requires @R@_st(p, i), @R@(v, w), 0 <= o < p.slots.len()
+    ensures @R@_st(p_set(p, o, v), @Q@set(i, o, w))
+{
+    assert forall|r: int| 0 <= r < p.slots.len() implies @R@(#[trigger] p_set(p, o, v).slots[r], @Q@set(i, o, w).slots[r]) by {
+        if r != o { assert(@R@(p.slots[r], i.slots[r])); }
+    }
+}
+pub proof fn lemma_@R@_rec(p: p_St, i: @Q@St, o: int, v: f32, w: @T@, c1: Choice, c2: Choice)
+    requires @R@_st(p, i), @R@(v, w), 0 <= o < p.slots.len()
+    ensures @R@_st(p_rec(p, o, v, c1), @REC2@)
+{
+    assert forall|r: int| 0 <= r < p.slots.len() implies @R@(#[trigger] p_rec(p, o, v, c1).slots[r], @REC2@.slots[r]) by {
+        if r != o { assert(@R@(p.slots[r], i.slots[r])); }
+    }
+}
+pub proof fn lemma_@R@_out(p: p_St, i: @Q@St, o: int, v: f32, w: @T@)
+    requires @R@_st(p, i), @R@(v, w), 0 <= o < p.outs.len()
+    ensures @R@_st(p_St { slots: p.slots, outs: p.outs.update(o, v), ch: p.ch, k: p.k, simp: p.simp }, @Q@St { slots: i.slots, outs: i.outs.update(o, w), ch: i.ch, k: i.k, simp: i.simp })
+{
+    assert forall|r: int| 0 <= r < p.outs.len() implies @R@(#[trigger] p.outs.update(o, v)[r], i.outs.update(o, w)[r]) by {
+        if r != o { assert(@R@(p.outs[r], i.outs[r])); }
+    }
+}
+/// one step of the point interpreter stays inside one step of the interval interpreter
+pub proof fn lemma_@R@_step(op: RegOp, p: p_St, i: @Q@St, pin: Seq<f32>, iin: Seq<@T@>, ns: int, no: int, nv: int)
+    requires @R@_ops(), @R@_st(p, i), @R@_seq(pin, iin), op_ok(op, ns, no, nv), p.slots.len() == ns, p.outs.len() == no, pin.len() >= nv
+    ensures @R@_st(p_step(op, p, pin), @Q@step(op, i, iin))
+{
+    match op {
+/*@ARMS@*/
+    }
+}
+/// whole tapes: if every slot and output starts covered and every input is covered, every output of the point run is
+/// covered by the corresponding output of the interval run
+pub proof fn lemma_@R@_run(t: Seq<RegOp>, n: nat, p0: p_St, i0: @Q@St, pin: Seq<f32>, iin: Seq<@T@>, ns: int, no: int, nv: int)
+    requires @R@_ops(), @R@_st(p0, i0), @R@_seq(pin, iin), n <= t.len(), p0.slots.len() == ns, p0.outs.len() == no, pin.len() >= nv,
+        forall|k: int| 0 <= k < t.len() ==> op_ok(#[trigger] t[k], ns, no, nv)
+    ensures @R@_st(p_run(t, n, p0, pin), @Q@run(t, n, i0, iin))
+    decreases n
+{
+    if n > 0 {
+        lemma_@R@_run(t, (n - 1) as nat, p0, i0, pin, iin, ns, no, nv);
+        lemma_p_run_shape(t, (n - 1) as nat, p0, pin);
+        lemma_@R@_step(t[t.len() - n], p_run(t, (n - 1) as nat, p0, pin), @Q@run(t, (n - 1) as nat, i0, iin), pin, iin, ns, no, nv);
+    }
+}
+"""
 
 BULK_ENV = r"""
 // =================== environment of the bulk interpreters ===================
